@@ -22,7 +22,7 @@ def gen(rng):
         nx, ny = (big, small) if rng.random() < 0.5 else (small, big)
     nlev = rng.randint(2, 3)                       # surface + upper levels
     sfc = rng.sample(SFC, rng.randint(1, 2))
-    lay = rng.sample(LAY, rng.randint(1, 2))
+    lay = rng.sample(LAY, rng.randint(1, 3))
     offs = [0]
     for _ in range(rng.randint(1, 2)):
         offs.append(offs[-1] + rng.choice([1, 3, 6, 24, 30]))
@@ -36,7 +36,18 @@ def gen(rng):
                 amp = rng.choice([1, 2, 8, 64, Fraction(1, 4)])
                 fields['%d|%d|%s' % (ti, li, key)] = [[str(Fraction(base) + amp * (3 * i + j + (i * j) // 2)) for i in range(nx)]
                                                      for j in range(ny)]          # non-decreasing ramps (no negative differences)
-    return dict(nx=nx, ny=ny, levels=levels, sfc=sfc, lay=lay, t0=t0, offs=offs, fields=fields)
+    c = dict(nx=nx, ny=ny, levels=levels, sfc=sfc, lay=lay, t0=t0, offs=offs, fields=fields)
+    if len(lay) >= 2 and nlev >= 3 and rng.random() < 0.6:
+        # the upper levels list the same variables in different orders (index record and records alike)
+        c['layorder'] = [list(lay)] + [rng.choice([lay[::-1], lay[1:] + lay[:1]]) for _ in range(nlev - 2)]
+    return c
+
+
+def _laykeys(c, li):
+    """the variables of level li in the order of the index record"""
+    if li == 0:
+        return c['sfc']
+    return c['layorder'][li - 1] if c.get('layorder') else c['lay']
 
 
 def _gridid(nx, ny):
@@ -78,7 +89,7 @@ def build(c):
         t = t0 + timedelta(hours=off)
         recs, sums = [], {}
         for li in range(len(c['levels'])):
-            for key in (c['sfc'] if li == 0 else c['lay']):
+            for key in _laykeys(c, li):
                 rows = c['fields']['%d|%d|%s' % (ti, li, key)]
                 b, nexp, var1, ksum, un = pack_with_model(rows)
                 prec = 2.0 ** (nexp - 8) if False else 0.0
@@ -87,7 +98,7 @@ def build(c):
                 meta['%d|%d|%s' % (ti, li, key)] = dict(nexp=nexp, decoded=[[str(x) for x in row] for row in un])
         lvltxt = ''
         for li, vg in enumerate(c['levels']):
-            keys = c['sfc'] if li == 0 else c['lay']
+            keys = _laykeys(c, li)
             lvltxt += '%6.1f' % vg + '%2d' % len(keys)
             for key in keys:
                 lvltxt += key.ljust(4) + '%3d' % sums[li, key] + ' '
